@@ -92,13 +92,16 @@ impl Storage {
     #[verifier::external_body]
     pub fn get_last_state(&self) -> (r: (U256, Header)) ensures r.0@ == self.s_td(), r.1 == self.s_tip() { unimplemented!() }
     #[verifier::external_body]
-    pub fn get_last_n_headers(&self) -> (r: Vec<(u64, Byte32)>) ensures r@ == self.s_last_n() { unimplemented!() }
+    // ASSUMPTION: stored header numbers are real block numbers (<= 2^62)
+    pub fn get_last_n_headers(&self) -> (r: Vec<(u64, Byte32)>)
+        ensures r@ == self.s_last_n(), forall|i: int| 0 <= i < r@.len() ==> (#[trigger] r@[i]).0 <= 0x4000_0000_0000_0000 { unimplemented!() }
     #[verifier::external_body]
     pub fn get_latest_matched_blocks(&self) -> (r: Option<(u64, u64, Vec<(Byte32, bool)>)>) { unimplemented!() }
     #[verifier::external_body]
     pub fn remove_matched_blocks(&self, start_number: u64) { unimplemented!() }
     #[verifier::external_body]
-    pub fn get_genesis_block(&self) -> (r: Block) { unimplemented!() }
+    pub fn get_genesis_block(&self) -> (r: Block) ensures r == self.s_genesis() { unimplemented!() }
+    pub uninterp spec fn s_genesis(&self) -> Block;
 }
 // network context (trait object in the real code)
 pub struct NetCtx { pub x: u8 }
